@@ -1,6 +1,22 @@
 """Per-property manifest metadata.  bin/mkmanifest renders MANIFEST.json from this."""
 
 CHECKS = {
+    "C17": dict(
+        text="spec/EventOps.tla models the event-completed operations as step functions (listener / callback registered before the command "
+             "is issued; the matching stack-status event counts from then on, also before the command's own response; refusal, command "
+             "timeout and operation timeout raise; scans collect result callbacks between issue and completion, also when the completion "
+             "overtakes the response). EventOpsMC explores every order of the environment's events, incl. events before the operation is "
+             "issued: completes only on command success + matching event after issue, never misses such an event, refusal raises. Every "
+             "ordered selection of {response (ok / refusal statuses in rotation / not-joined), matching event, non-matching event, "
+             "timeout} and every order of {response, two results, completion} is executed on the real EZSP.formNetwork, leaveNetwork, "
+             "startScan and ControllerApplication._ensure_network_running (versions 8, 4, 14 quick / 4..14 thorough) in virtual time with "
+             "the harness as NCP, each ended by timeout, cancellation or a further event, plus repeated operations; TLC validates outcome, "
+             "exact timeout instant, scan results and that listener / callback bookkeeping is back to its prior size after every operation.",
+        design_ref="3/C17",
+        note="Trusted: compat shim (bring-up), fake gateway + NcpEzsp encoder, virtual time. Residue is read from EZSP._stack_status_listeners "
+             "and EZSP._callbacks (the bookkeeping the property names). A scan has no timeout of its own in the code and none is claimed.",
+        technique="TLA+ spec + TLC exhaustive model check of all event orders; the same orders executed on the implementation in virtual time; TLC trace validation",
+    ),
     "C13": dict(
         text="spec/Incoming.tla is the mapping specification: an incoming-message callback of type unicast / multicast / broadcast yields "
              "exactly one packet with source, endpoints, profile, cluster, APS sequence, payload, LQI and signed RSSI of the callback and "
